@@ -335,7 +335,17 @@ func (f *Frame) applyContractEnv(con *Contract, names []string, args []Val, sig 
 			e.unsupp(fmt.Sprintf("requires of %s: %v", disp, err))
 			continue
 		}
-		e.addObl("pre", siteKey+":"+clauseLabel(c, i), f.curReach, t, pos, c.Src, f.props())
+		shared := false
+		for _, cp := range con.Props {
+			if hasProp(f.props(), cp) {
+				shared = true
+			}
+		}
+		if shared || len(con.Props) == 0 || con.Extern {
+			e.addObl("pre", siteKey+":"+clauseLabel(c, i), f.curReach, t, pos, c.Src, f.props())
+		} else {
+			e.note(fmt.Sprintf("precondition of %s (%s) is assumed at the call: it belongs to %v, which this function's contract does not claim", disp, c.Src, con.Props))
+		}
 		e.assumeAt(f.curReach, t)
 	}
 	if len(con.Measure) > 0 && f.top && e.con != nil && len(e.con.Measure) > 0 {
